@@ -28,6 +28,9 @@ def main():
     assert out.strip() == "", "repo dirty: " + out
     rc, out = sh(f"timeout 120 /venv/bin/python {d}/demo.py {REPO}")
     res["demo_clean"] = (rc, out.strip().splitlines()[-1:] if out.strip() else [])
+    # the evidence file describes the last run on the CURRENT tree: keep it out of the way of the seeded run
+    ev = os.path.join(VERIF, "evidence", pid + ".json")
+    ev_saved = open(ev, "rb").read() if os.path.exists(ev) else None
     try:
         rc, out = sh(f"git -C {REPO} apply {d}/patch.diff")
         if rc != 0:
@@ -50,6 +53,8 @@ def main():
         res["check_out"] = shown[:8]
     finally:
         sh(f"git -C {REPO} checkout -- .")
+        if ev_saved is not None:
+            open(ev, "wb").write(ev_saved)
     res["caught"] = res.get("check_rc") == 1
     res["valid_seed"] = (res["demo_clean"][0] == 0 and res.get("demo_patched", (0,))[0] != 0
                          and "67 passed" in res.get("unit", ""))
